@@ -45,6 +45,8 @@ pub mod data {
 #[macro_use]
 pub mod interface;
 pub mod serialize;
+#[cfg(feature = "verif")]
+pub mod verif;
 mod util {
     pub mod buffer_queue;
     pub mod smallcharset;
